@@ -104,6 +104,13 @@ type stubClientKeeper struct {
 	storeKey  sdk.StoreKey
 	stores    map[string]sdk.KVStore
 	storeFor  []string // chain names ClientStore was asked for, in order
+	real      []realClient
+}
+
+// realClient registers a real light-client state (not a stub) under a chain name.
+type realClient struct {
+	name string
+	cs   exported.ClientState
 }
 
 func newStubClientKeeper(key sdk.StoreKey, nClients int) *stubClientKeeper {
@@ -134,6 +141,11 @@ func (k *stubClientKeeper) find(chainName string) *stubClient {
 }
 
 func (k *stubClientKeeper) GetClientState(ctx sdk.Context, chainName string) (exported.ClientState, bool) {
+	for _, r := range k.real {
+		if r.name == chainName {
+			return r.cs, true
+		}
+	}
 	if c := k.find(chainName); c != nil {
 		return c, true
 	}
